@@ -1261,8 +1261,8 @@ def run(tier):
             rep.defer_broken("SLOT: no live-handle reset found in the request units")
         if failed_register_rule(prog, rep) < 3:
             rep.defer_broken("N3: fewer than 3 tested registrations found in the request units")
-        if connect_routing_rule(prog, rep) < 7:
-            rep.defer_broken("N4: fewer than 7 routing obligations found in network_connect.c")
+        if connect_routing_rule(prog, rep) < 4:
+            rep.defer_broken("N4: fewer than 4 routing obligations found in network_connect.c")
         if owned_fd_rule(prog, rep) < 4:
             rep.defer_broken("N4: fewer than 4 releases of a request that owns a descriptor found")
         if closed_fd_rule(prog, rep) < 1:
